@@ -541,6 +541,11 @@ func (s *c09Store) GetByHeight(ctx context.Context, height uint64) (eds.Accessor
 	}
 	acc, err := s.inner.GetByHeight(ctx, height)
 	if err != nil {
+		// every second failing lookup is reported the way a layered getter reports it (the store's
+		// own CachedStore wraps the error of the store below it): callers must use errors.Is
+		if s.lookups.Load()%2 == 0 {
+			return nil, fmt.Errorf("c09 store layer: unable to load accessor: %w", err)
+		}
 		return nil, err
 	}
 	s.opened.Add(1)
